@@ -14,6 +14,7 @@ package types
 //verif:override (*github.com/bytom/bytom/protocol/bc.Hash).String -> verifC30HashString
 //verif:obligation fn=VerifC30Proof args=0,0;1,0;1,1;2,0;2,1;2,2;2,3;3,0;3,1;3,2;3,3;3,4;3,5;3,6;3,7 validate=10 timeout=600000 secs=3600
 //verif:obligation fn=VerifC30Proof args=4,0;4,1;4,2;4,3;4,4;4,5;4,6;4,7;4,8;4,9;4,10;4,11;4,12;4,13;4,14;4,15 timeout=600000 secs=3600
+//verif:obligation fn=VerifC30Twice args=2,2;3,2;3,5 validate=10 timeout=600000 secs=3600
 //verif:obligation fn=VerifC30Proof args=5,1;5,16;5,21;5,31;6,9;6,32;6,63 tier=thorough timeout=600000 secs=6000
 
 import (
@@ -122,4 +123,47 @@ func VerifC30Proof(n int, mask int) {
 		verifAssert(!ValidateTxMerkleTreeProof(verifC30CopyHashes(hashes), f2, relatedIDs, root), "tampered-flag-rejected")
 		verifReach("VerifC30Proof:tampered-flag")
 	}
+}
+
+// Two proofs in a row for two different lists of the same length that share
+// their first transaction: the second proof must validate against the second
+// list's root (proof generation must not depend on an earlier call).
+func VerifC30Twice(n int, mask int) {
+	build := func(tag string, first bc.Hash) ([]*Tx, []*Tx, []*bc.Tx, []*bc.Hash) {
+		ids := make([]bc.Hash, n)
+		ids[0] = first
+		for i := 1; i < n; i++ {
+			ids[i] = verifC30Hash(tag)
+		}
+		for i := 0; i < n; i++ {
+			for j := 0; j < i; j++ {
+				verifAssume(ids[i] != ids[j])
+			}
+		}
+		var txs, related []*Tx
+		var bcTxs []*bc.Tx
+		var relatedIDs []*bc.Hash
+		for i := 0; i < n; i++ {
+			tx := verifC30Tx(ids[i])
+			txs = append(txs, tx)
+			bcTxs = append(bcTxs, tx.Tx)
+			if mask&(1<<uint(i)) != 0 {
+				related = append(related, tx)
+				id := ids[i]
+				relatedIDs = append(relatedIDs, &id)
+			}
+		}
+		return txs, related, bcTxs, relatedIDs
+	}
+	first := verifC30Hash("first")
+	txsA, relA, _, _ := build("a", first)
+	GetTxMerkleTreeProof(txsA, relA)
+	txsB, relB, bcB, relIDsB := build("b", first)
+	rootB, err := TxMerkleRoot(bcB)
+	verifAssert(err == nil, "root-computed")
+	hashes, flags := GetTxMerkleTreeProof(txsB, relB)
+	ok := ValidateTxMerkleTreeProof(verifC30CopyHashes(hashes), flags, relIDsB, rootB)
+	verifObserveBool("valid", ok)
+	verifAssert(ok, "second-proof-validates-against-its-own-root")
+	verifReach("VerifC30Twice:end")
 }
